@@ -64,6 +64,27 @@ def translate_prefix_clause():
     return chain, esc, suffix
 
 
+def _concat_pieces(e):
+    """Flatten a str concatenation: BinOp(+) and JoinedStr -> [("const", text) | ("expr", node)]."""
+    if isinstance(e, ast.BinOp) and isinstance(e.op, ast.Add):
+        return _concat_pieces(e.left) + _concat_pieces(e.right)
+    if isinstance(e, ast.Constant) and isinstance(e.value, str):
+        return [("const", e.value)]
+    if isinstance(e, ast.JoinedStr):
+        out = []
+        for v in e.values:
+            if isinstance(v, ast.Constant) and isinstance(v.value, str):
+                out.append(("const", v.value))
+            elif isinstance(v, ast.FormattedValue):
+                if v.conversion != -1 or v.format_spec is not None:
+                    raise TranslatorError("dir_range_upper: f-string field with a conversion or a format spec")
+                out += _concat_pieces(v.value)
+            else:
+                raise TranslatorError("dir_range_upper: unexpected f-string part")
+        return out
+    return [("expr", e)]
+
+
 def translate_dir_range_upper():
     tree = parse_module(f"{CORE}/path.py")
     fn = find_function(tree, "dir_range_upper")
@@ -80,17 +101,28 @@ def translate_dir_range_upper():
     if not ok:
         raise TranslatorError("dir_range_upper: guard is not `if not parent.endswith(c): raise`")
     guard = test.operand.args[0].value
-    r = body[1].value
-    ok = (isinstance(r, ast.BinOp) and isinstance(r.op, ast.Add) and isinstance(r.right, ast.Constant)
-          and isinstance(r.left, ast.Subscript) and isinstance(r.left.value, ast.Name)
-          and r.left.value.id == "parent" and isinstance(r.left.slice, ast.Slice)
-          and r.left.slice.lower is None and r.left.slice.step is None
-          and isinstance(r.left.slice.upper, ast.UnaryOp) and isinstance(r.left.slice.upper.op, ast.USub)
-          and isinstance(r.left.slice.upper.operand, ast.Constant))
+    # The result is a concatenation of pieces.  `a + b`, an f-string f"{a}b" (no conversion, no format
+    # spec: str.__format__ with an empty spec is the identity on str) and nestings of the two denote the
+    # same string, so they are flattened into one list of pieces before the shape is read.
+    pieces = _concat_pieces(body[1].value)
+    merged = []
+    for kind, val in pieces:
+        if kind == "const" and merged and merged[-1][0] == "const":
+            merged[-1] = ("const", merged[-1][1] + val)
+        elif not (kind == "const" and val == ""):
+            merged.append((kind, val))
+    if len(merged) != 2 or merged[0][0] != "expr" or merged[1][0] != "const":
+        raise TranslatorError("dir_range_upper: result is not the concatenation `parent[:-k]` then a constant")
+    sl = merged[0][1]
+    ok = (isinstance(sl, ast.Subscript) and isinstance(sl.value, ast.Name) and sl.value.id == "parent"
+          and isinstance(sl.slice, ast.Slice) and sl.slice.step is None
+          and (sl.slice.lower is None or (isinstance(sl.slice.lower, ast.Constant) and sl.slice.lower.value == 0))
+          and isinstance(sl.slice.upper, ast.UnaryOp) and isinstance(sl.slice.upper.op, ast.USub)
+          and isinstance(sl.slice.upper.operand, ast.Constant))
     if not ok:
-        raise TranslatorError("dir_range_upper: return is not `parent[:-k] + const`")
-    cut = r.left.slice.upper.operand.value
-    last = r.right.value
+        raise TranslatorError("dir_range_upper: result is not the concatenation `parent[:-k]` then a constant")
+    cut = sl.slice.upper.operand.value
+    last = merged[1][1]
     if not isinstance(cut, int) or not isinstance(last, str) or not isinstance(guard, str):
         raise TranslatorError("dir_range_upper: unexpected constants")
     return guard, cut, last
